@@ -47,6 +47,10 @@ CLAIMED.update({
    text="After every delivered heartbeat the volume, remote-volume, EC-shard and max-volume counters of every disk, server, rack, data center and the cluster equal the recount from the registered state beneath, and the per-server listings equal what is registered. Three genuine accounting defects found this way were repaired (see known_findings.json 'fixed').",
    note=TOPONOTE),
 })
+CLAIMED["C13"] = dict(engine="cluster", design="§6 C13",
+   technique=TECH + "scheduler-ordered NextFileId/SetMax/Assign/heartbeat/leader-change histories against the real sequencers and master handlers, etcd fault injection (errors, CAS conflicts, restarts) through an in-memory KeysAPI; history oracle (disjoint ranges, nothing at or below keys in use, unique volume ids)",
+   text="Every sequencer type is driven for real: memory, snowflake, and etcd over an in-memory compare-and-swap store shared by one or two instances with injected errors and restarts; in system mode one or two real masters (raft stub group) serve Assign with any counts while modelled volume servers report the largest key in use, clients write assigned keys, and leadership moves with assignments not yet written. Over the recorded history no two assignments of a volume overlap, no assignment contains a key reported in use or already written, and NextVolumeId never repeats.",
+   note=TOPONOTE + " etcd and raft are stubs: real raft safety and real etcd semantics beyond compare-and-swap are out of scope. Interleaving granularity is one handler / sequencer call.")
 
 PLANNED = {}
 
